@@ -21,7 +21,7 @@ JOBS = [
     Job("fp-construct", "C01.cpp", ["HLO=2", "HHI=2", "FPMODE"], mode="fp", budget_s=120, desc="construction/copy over all IEEE doubles, NaN excluded"),
     Job("fp-intersection", "C01.cpp", ["HLO=1", "HHI=1", "FPMODE"], mode="fp", tiers=("thorough",), budget_s=1500, desc="intersection (both forms) over all IEEE doubles, NaN excluded"),
     Job("histories", "C01.cpp", ["HLO=4", "HHI=4", "NSTEPS=2"], thorough_defines=["HLO=4", "HHI=4", "NSTEPS=3"], mode="real", budget_s=200, thorough_budget_s=1500, desc="construct then 2 (quick) / 3 (thorough) arbitrary calls incl. raising ones"),
-    Job("auto", "C01.cpp", ["HLO=5", "HHI=5"], mode="real", budget_s=120, desc="auto-correcting parameter: never raises, ends accepted and nearest"),
+    Job("auto", "C01.cpp", ["HLO=5", "HHI=5"], mode="real", budget_s=120, replay_tol=1e-16, desc="auto-correcting parameter: never raises, ends accepted and nearest"),
 ]
 
 LEVEL_TEXT = ("Bounded symbolic checking: for every discrete configuration listed in the evidence, every feasible path of the compiled bpp-core code is explored with "
